@@ -316,8 +316,13 @@ class OpMove(Op):
 
         if isinstance(source_parent, MutableSequence):
             del source_parent[int(self.source.parts[-1])]
-        if isinstance(source_parent, MutableMapping):
+        elif isinstance(source_parent, MutableMapping):
             del source_parent[_member_name(source_parent, self.source.parts[-1])]
+        elif source_parent is not None:
+            # The source can't be removed from an immutable container.
+            raise JSONPatchError(
+                f"unexpected operation on {source_parent.__class__.__name__!r}"
+            )
 
         # RFC 6902: a move is a remove followed by an add at the target location.
         return OpAdd(path=self.dest, value=source_obj).apply(data)
